@@ -828,6 +828,191 @@ fn gen_fuzz_frame(rng: &mut Rng) -> String {
 }
 
 
+// ------------------------------------------------------------------------------------------------ MultiReader
+//
+// The real `MultiReader` over passive in-memory sources, polled by hand (no runtime) with a counting outer waker.
+mod mr {
+    use super::*;
+    use futures::Stream;
+    use std::cell::RefCell;
+    use std::collections::VecDeque;
+    use std::pin::Pin;
+    use std::rc::Rc;
+    use std::sync::atomic::{AtomicUsize, Ordering};
+    use std::sync::Arc;
+    use std::task::{Context, Poll, Wake, Waker};
+    use swimos_utilities::multi_reader::MultiReader;
+
+    struct Counter(AtomicUsize);
+    impl Wake for Counter {
+        fn wake(self: Arc<Self>) {
+            self.0.fetch_add(1, Ordering::SeqCst);
+        }
+        fn wake_by_ref(self: &Arc<Self>) {
+            self.0.fetch_add(1, Ordering::SeqCst);
+        }
+    }
+
+    #[derive(Default)]
+    struct Source {
+        q: VecDeque<u64>,
+        closed: bool,
+        waker: Option<Waker>,
+    }
+
+    struct SourceStream(Rc<RefCell<Source>>);
+
+    impl Stream for SourceStream {
+        type Item = u64;
+        fn poll_next(self: Pin<&mut Self>, cx: &mut Context<'_>) -> Poll<Option<u64>> {
+            let mut s = self.0.borrow_mut();
+            if let Some(x) = s.q.pop_front() {
+                Poll::Ready(Some(x))
+            } else if s.closed {
+                Poll::Ready(None)
+            } else {
+                s.waker = Some(cx.waker().clone());
+                Poll::Pending
+            }
+        }
+    }
+
+    pub struct Sys {
+        reader: MultiReader<SourceStream>,
+        sources: Vec<Rc<RefCell<Source>>>,
+        count: Arc<Counter>,
+        waker: Waker,
+    }
+
+    impl Sys {
+        pub fn new() -> Sys {
+            let count = Arc::new(Counter(AtomicUsize::new(0)));
+            Sys { reader: MultiReader::new(), sources: vec![], waker: Waker::from(count.clone()), count }
+        }
+
+        fn add(&mut self) {
+            let s: Rc<RefCell<Source>> = Default::default();
+            self.sources.push(s.clone());
+            self.reader.add(SourceStream(s));
+        }
+
+        pub fn exec(&mut self, op: &str) -> String {
+            let w0 = self.count.0.load(Ordering::SeqCst);
+            let parts: Vec<&str> = op.split_whitespace().collect();
+            let res: String = match parts.as_slice() {
+                ["add"] => {
+                    self.add();
+                    "ok".into()
+                }
+                ["addn", k] => {
+                    for _ in 0..k.parse::<usize>().unwrap_or(0) {
+                        self.add();
+                    }
+                    "ok".into()
+                }
+                ["push", s, x] => match (s.parse::<usize>().ok().and_then(|i| self.sources.get(i)), x.parse::<u64>()) {
+                    (Some(src), Ok(x)) => {
+                        let w = {
+                            let mut g = src.borrow_mut();
+                            if g.closed {
+                                None // a closed source accepts nothing
+                            } else {
+                                g.q.push_back(x);
+                                g.waker.take()
+                            }
+                        };
+                        if let Some(w) = w {
+                            w.wake();
+                        }
+                        "ok".into()
+                    }
+                    _ => "bad-op".into(),
+                },
+                ["close", s] => match s.parse::<usize>().ok().and_then(|i| self.sources.get(i)) {
+                    Some(src) => {
+                        let w = {
+                            let mut g = src.borrow_mut();
+                            g.closed = true;
+                            g.waker.take()
+                        };
+                        if let Some(w) = w {
+                            w.wake();
+                        }
+                        "ok".into()
+                    }
+                    None => "bad-op".into(),
+                },
+                ["poll"] => {
+                    let mut cx = Context::from_waker(&self.waker);
+                    let r = catch_unwind(AssertUnwindSafe(|| Pin::new(&mut self.reader).poll_next(&mut cx)));
+                    match r {
+                        Ok(Poll::Ready(Some(x))) => format!("item {}", x),
+                        Ok(Poll::Ready(None)) => "none".into(),
+                        Ok(Poll::Pending) => "pending".into(),
+                        Err(_) => "panic".into(),
+                    }
+                }
+                ["empty"] => format!("empty {}", self.reader.is_empty()),
+                _ => "bad-op".into(),
+            };
+            let w1 = self.count.0.load(Ordering::SeqCst);
+            format!("{} w={}", res, w1 - w0)
+        }
+    }
+
+    pub fn gen_ops(rng: &mut Rng) -> Vec<String> {
+        let mut ops = vec![];
+        let mut n_src = 0usize;
+        let mut closed: Vec<bool> = vec![];
+        let mut seq = 0u64;
+        // most cases stay within one bucket; some cross the 64-stream bucket boundary
+        if rng.chance(1, 5) {
+            let k = rng.range(60, 135) as usize;
+            ops.push(format!("addn {}", k));
+            n_src = k;
+            closed = vec![false; k];
+        }
+        for _ in 0..rng.range(5, 40) {
+            match rng.below(100) {
+                0..=11 => {
+                    ops.push("add".into());
+                    n_src += 1;
+                    closed.push(false);
+                }
+                12..=49 if n_src > 0 => {
+                    // bursts on few sources, so that several are ready at once
+                    let s = if rng.chance(1, 2) { rng.below(n_src.min(4) as u64) } else { rng.below(n_src as u64) } as usize;
+                    if closed[s] && rng.chance(9, 10) {
+                        continue;
+                    }
+                    seq += 1;
+                    ops.push(format!("push {} {}", s, (s as u64) * 100000 + seq));
+                }
+                50..=55 if n_src > 0 => {
+                    let s = rng.below(n_src as u64) as usize;
+                    closed[s] = true;
+                    ops.push(format!("close {}", s));
+                }
+                56..=58 => ops.push("empty".into()),
+                _ => ops.push("poll".into()),
+            }
+        }
+        // drain
+        for _ in 0..rng.below(12) {
+            ops.push("poll".into());
+        }
+        ops
+    }
+
+    pub fn run_case(ops: &[String], t: &mut Trace) {
+        let mut sys = Sys::new();
+        for op in ops {
+            let o = sys.exec(op);
+            t.op(op, o);
+        }
+    }
+}
+
 // ------------------------------------------------------------------------------------------------ route generator
 
 const R_NODES: [&str; 7] = ["/a", "/b", "a b", "true", "/a%20b", "/A", "n"];
@@ -983,6 +1168,10 @@ fn main() {
                 match engine.as_str() {
                     "pure" => gen_pure_case(&mut rng, &mut t),
                     "fuzz" => gen_fuzz_case(&mut rng, &mut t),
+                    "mr" => {
+                        let ops = mr::gen_ops(&mut rng);
+                        mr::run_case(&ops, &mut t);
+                    }
                     "route" => {
                         let ops = gen_route_ops(&mut rng);
                         sock::run_case(&ops, &mut t);
@@ -996,6 +1185,10 @@ fn main() {
             let mut t = Trace::create(&out);
             for (i, case) in ops.iter().enumerate() {
                 t.case(i);
+                if case.first().map(|o| matches!(o.split_whitespace().next(), Some("add" | "addn" | "poll" | "push" | "close" | "empty"))).unwrap_or(false) {
+                    mr::run_case(case, &mut t);
+                    continue;
+                }
                 if case.first().map(|o| is_route_op(o)).unwrap_or(false) {
                     sock::run_case(case, &mut t);
                     continue;
